@@ -4,7 +4,12 @@ import gen
 
 TOL = {"exact": 0.0, "float": 1e-9, "f32": 2e-4}
 
-F64_NOTE = "theorems are over an arbitrary commutative ring / field; f64 rounding is outside them (exact channel: integer and dyadic data, where f64 arithmetic is exact)"
+F64_NOTE = ("theorems are over an arbitrary scalar type / commutative ring / the reals; f64 rounding is outside them "
+            "(exact channel: integer and dyadic data, where f64 arithmetic is exact and the comparison is equality; "
+            "float channel: tolerance 1e-9 relative, NaN/inf cases discarded as out of domain)")
+SEED_NOTE = "seeds passed to backward are plain untracked arrays (a tracked seed is outside the properties' quantifiers)"
+BYVALUE_NOTE = ("pending deltas and stored gradients are modelled by value: buffer sharing between a gradient cell and a handle "
+                "fetched from it is not modelled (observed directly on the implementation by the harness's bitwise shadow copies)")
 
 
 def fam(name, genf, quick, thorough, **kw):
@@ -13,11 +18,158 @@ def fam(name, genf, quick, thorough, **kw):
     return d
 
 
+def g(f, **kw):
+    return lambda rng, n, tier: f(rng, n, tier, **kw)
+
+
 PROPS = {
+    "C01": {
+        "families": [
+            fam("dag", g(gen.fam_dag), 250, 6000, rule="distinct (topology, shapes, flags) of random programs with fan-out >= 2 and a tracked leaf; plus self-product chains to depth 45/60"),
+            fam("dag-float", g(gen.fam_dag, mode="float"), 120, 3000, mode="float", rule="as dag, non-ring operations included"),
+            fam("customlog", g(gen.fam_customlog), 80, 2000, rule="distinct Array::op programs"),
+            fam("ewise-grad", g(gen.fam_ewise, grads=True), 60, 1500, rule="distinct (op, shape pair)"),
+        ],
+        "assumptions": [F64_NOTE, SEED_NOTE, "user closures given to Array::op are lawful (the harness's are, by inspection and by correspondence)"],
+    },
+    "C02": {
+        "families": [
+            fam("ewise-grad", g(gen.fam_ewise, grads=True), 80, 2000, rule="distinct (op, broadcast shape pair, number of uses)"),
+            fam("ewise-grad-float", g(gen.fam_ewise, mode="float", grads=True), 60, 1500, mode="float", rule="as above incl. div"),
+            fam("matmul-grad", g(gen.fam_matmul, grads=True), 60, 1500, rule="distinct (leading dims, sizes, transposes, additive term)"),
+            fam("conv-grad", g(gen.fam_conv, grads=True), 150, 2500, rule="distinct (batch, depth, image, filters, strides); overlapping and uneven strides tagged"),
+            fam("reduce-grad", g(gen.fam_reduce, grads=True), 0, 0, rule="distinct (shape, k) / reshape targets / element maps, non-uniform seeds"),
+            fam("reduce-grad-float", g(gen.fam_reduce, mode="float", grads=True), 0, 0, mode="float", rule="as above, all element maps, exponents in [-3,3]"),
+        ],
+        "assumptions": [F64_NOTE, SEED_NOTE, "x = 0 with an exponent below 1 is outside powf's differentiable domain"],
+    },
+    "C03": {
+        "families": [
+            fam("ewise-grad", g(gen.fam_ewise, grads=True), 150, 3000, rule="distinct (op, broadcast-compatible shape pair, uses in {1,2,3}); both operands' gradients read"),
+            fam("dag", g(gen.fam_dag), 150, 3000, rule="distinct random programs; gradient shapes and values of every name read"),
+        ],
+        "assumptions": [F64_NOTE, SEED_NOTE],
+    },
+    "C04": {
+        "families": [
+            fam("ewise", g(gen.fam_ewise), 400, 20000, rule="distinct ordered shape pairs (exhaustive rank<=3 size<=2 quick / rank<=4 size<=3 thorough, plus random rank<=5 size<=5); compatible pairs run add, sub, mul, div, axpy; incompatible pairs one op each"),
+            fam("ewise-float", g(gen.fam_ewise, mode="float"), 150, 3000, mode="float", rule="as above on arbitrary doubles"),
+        ],
+        "assumptions": [F64_NOTE],
+    },
+    "C05": {
+        "families": [
+            fam("matmul", g(gen.fam_matmul), 300, 8000, rule="distinct (leading dims a, leading dims b, m, k, n, ta, tb, additive-term form), rank-1 forms, inner mismatches"),
+            fam("matmul-float", g(gen.fam_matmul, mode="float"), 60, 1500, mode="float", rule="as above on arbitrary doubles"),
+        ],
+        "assumptions": [F64_NOTE],
+    },
+    "C06": {
+        "families": [
+            fam("conv", g(gen.fam_conv), 300, 4000, rule="distinct (batch, depth, rows, cols, count, frows, fcols, sr, sc); refusals"),
+            fam("conv-float", g(gen.fam_conv, mode="float"), 60, 800, mode="float", rule="as above on arbitrary doubles"),
+        ],
+        "assumptions": [F64_NOTE],
+    },
+    "C07": {
+        "families": [
+            fam("reduce", g(gen.fam_reduce), 0, 0, rule="every shape rank<=3 (quick) / rank<=4 (thorough) size<=3: every k in 0..rank+1, reshape to every 1/2-factor shape and a wrong count, every exact element map"),
+            fam("reduce-float", g(gen.fam_reduce, mode="float"), 0, 0, mode="float", rule="as above with ln, exp, recip, sigmoid, softmax, real exponents"),
+        ],
+        "assumptions": [F64_NOTE, "softmax rows sum to one only up to rounding in floats; the oracle compares with exp(x)/sum exp(x) under the float tolerance"],
+    },
+    "C08": {
+        "families": [
+            fam("history", g(gen.fam_history), 150, 5000, rule="distinct histories with at least one pass; after every command the harness compares every live handle with the bitwise copy taken when it was bound"),
+            fam("optim", g(gen.fam_optim), 60, 1500, rule="distinct parameter lists"),
+            fam("train", g(gen.fam_train), 40, 800, rule="distinct training runs with >= 2 iterations"),
+        ],
+        "assumptions": [F64_NOTE, BYVALUE_NOTE, "Rust's guarantee that a shared Rc<Vec<_>> without interior mutability cannot be written in safe code"],
+    },
+    "C09": {
+        "families": [
+            fam("flags", g(gen.fam_flags), 80, 2000, rule="every operand flag assignment (6 ways of setting a flag) of every binary/unary op and matmul's 8 assignments; random programs with an untracked intermediate"),
+            fam("flags-float", g(gen.fam_flags, mode="float"), 30, 600, mode="float", rule="as above with the non-ring operations"),
+            fam("history", g(gen.fam_history), 100, 3000, rule="distinct histories with start/stop/tracked/untracked on handles and clones between passes"),
+        ],
+        "assumptions": [F64_NOTE, SEED_NOTE, BYVALUE_NOTE],
+    },
+    "C10": {
+        "families": [
+            fam("history", g(gen.fam_history), 200, 6000, rule="distinct histories: passes on the same result again, interior nodes then results containing them, shared sub-graphs, clears and sets in between; probe of every live node after every pass"),
+            fam("history-float", g(gen.fam_history, mode="float"), 50, 1000, mode="float", rule="as above"),
+        ],
+        "assumptions": [F64_NOTE, SEED_NOTE],
+    },
+    "C11": {
+        "families": [
+            fam("customlog", g(gen.fam_customlog), 150, 5000, rule="exhaustive Array::op DAGs up to 3 (quick) / 4 (thorough) nodes, random ones up to 40 nodes; the invocation log of the user closures (label, received delta) is compared as a sorted list"),
+            fam("dag", g(gen.fam_dag), 60, 1500, rule="self-product chains to depth 45/60 (2^60 paths) and random programs"),
+        ],
+        "assumptions": [F64_NOTE, "user closures are lawful"],
+    },
+    "C12": {
+        "families": [
+            fam("transparent", g(gen.fam_transparent), 200, 6000, rule="distinct (program, set of edit kinds) with at least one edit: operand -> clone, drop after last use, re-bind, pass from a clone"),
+            fam("history", g(gen.fam_history), 60, 1500, rule="histories with clones / drops / re-binding"),
+        ],
+        "assumptions": [F64_NOTE, SEED_NOTE],
+    },
+    "C13": {
+        "families": [
+            fam("optim", g(gen.fam_optim), 150, 4000, rule="every frozen subset of 1-4 parameters, random lists of 1-6, repeated updates, gradients from real passes"),
+            fam("optim-float", g(gen.fam_optim, mode="float"), 50, 1000, mode="float", rule="arbitrary learning rates"),
+        ],
+        "assumptions": [F64_NOTE],
+    },
+    "C14": {
+        "families": [
+            fam("train", g(gen.fam_train), 120, 3000, rule="distinct (layer stack, activations, cost, batch, iterations >= 2)"),
+            fam("train-float", g(gen.fam_train, mode="float"), 80, 2000, mode="float", rule="sigmoid / softmax / cross-entropy included"),
+        ],
+        "assumptions": [F64_NOTE],
+    },
+    "C15": {
+        "families": [
+            fam("forward", g(gen.fam_train, forward_only=True), 150, 4000, rule="distinct layer stacks evaluated layer by layer"),
+            fam("forward-float", g(gen.fam_train, mode="float", forward_only=True), 100, 2500, mode="float", rule="all activations"),
+            fam("train", g(gen.fam_train), 40, 1000, rule="loss values and model forward"),
+            fam("train-float", g(gen.fam_train, mode="float"), 40, 1000, mode="float", rule="both costs"),
+        ],
+        "assumptions": [F64_NOTE],
+    },
     "C16": {
         "families": [fam("construct", gen.fam_construct, 80, 400,
                          rule="distinct (shape) / (nesting) / (malformed input) keys; every in-range multi-index and flat index of each shape is read")],
-        "assumptions": ["rank-0 arrays (empty dimension list) are outside the property's quantifier and are not generated",
-                        F64_NOTE],
+        "assumptions": ["rank-0 arrays (empty dimension list) are outside the property's quantifier and are not generated", F64_NOTE],
+    },
+    "C17": {
+        "families": [
+            fam("linear", g(gen.fam_linear), 150, 5000, rule="distinct (program, alpha, beta) with (alpha, beta) != (0, 0): three fresh instances with s1, s2, alpha*s1+beta*s2, and a pair omitted-seed vs ones"),
+        ],
+        "assumptions": [F64_NOTE, SEED_NOTE],
+    },
+    "C18": {
+        "families": [
+            fam("release", g(gen.fam_release), 200, 6000, rule="distinct programs: build, pass(es), drop every derived result in random order, then Vec::from on every leaf; Rc owner counts compared after every drop"),
+            fam("train", g(gen.fam_train), 60, 1500, rule="training runs: the previous iteration's input is owned again after the next forward"),
+            fam("history", g(gen.fam_history), 60, 1500, rule="owner counts after every pass"),
+        ],
+        "assumptions": [F64_NOTE, BYVALUE_NOTE, "Rc's own correctness; reachable references = strong_count (no cycles, no Weak), compared numerically on every probe"],
+    },
+    "C19": {
+        "variants": ["f64", "f32"],
+        "families": [
+            fam("ewise-f32", g(gen.fam_ewise), 100, 3000, variant="f32", rule="distinct shape pairs, exact channel (integers < 2^24) against the f32 build"),
+            fam("matmul-f32", g(gen.fam_matmul), 60, 1500, variant="f32", rule="distinct configurations, exact channel"),
+            fam("conv-f32", g(gen.fam_conv), 60, 800, variant="f32", rule="distinct configurations, exact channel"),
+            fam("reduce-f32", g(gen.fam_reduce), 0, 0, variant="f32", rule="every shape / k / map, exact channel"),
+            fam("dag-f32", g(gen.fam_dag), 80, 2000, variant="f32", rule="distinct programs with gradients, exact channel"),
+            fam("ewise-grad-f32", g(gen.fam_ewise, grads=True), 40, 1000, variant="f32", rule="gradients of broadcast pairs"),
+            fam("reduce-f32-float", g(gen.fam_reduce, mode="f32"), 0, 0, mode="f32", variant="f32", rule="non-ring maps against Lean Float32 with tolerance 2e-4"),
+            fam("dag-f32-float", g(gen.fam_dag, mode="f32"), 60, 1500, mode="f32", variant="f32", rule="random programs against Lean Float32"),
+        ],
+        "assumptions": ["the 'within single-precision rounding' half is validated by differential runs only (no IEEE rounding theory in Lean here): labelled partial",
+                        "exact channel on the f32 build: integers below 2^24, where f32 arithmetic is exact"],
     },
 }
